@@ -50,7 +50,18 @@ def h_read_raw(data, dims):
     return pic, pos
 
 
-PATTERNS = ["picture_%d.raw", "%05d.raw", "a.b_%d.raw", "sub/p%d.raw", "noext_%d", "x%dy.json", "pic-%03d.raw"]
+PATTERNS = ["picture_%d.raw", "%05d.raw", "a.b_%d.raw", "sub/p%d.raw", "noext_%d", "x%dy.json", "pic-%03d.raw",
+            "dir.v1/p_%d", "dir.v1/p_%d.raw", ".hidden_%d", "sub/.h%d.raw", "dir.v1/q%d.tar.raw"]
+
+
+def h_stem(name):
+    """Path without its extension, by the documented rule (the extension is the
+    part after the last dot of the *file name*, leading dots not counting)."""
+    d, _, base = name.rpartition("/")
+    stripped = base.lstrip(".")
+    if "." in stripped:
+        base = base[: len(base) - len(stripped)] + stripped.rsplit(".", 1)[0]
+    return (d + "/" if d else "") + base
 
 
 class C25(ByteChanSpec):
@@ -105,7 +116,7 @@ class C25(ByteChanSpec):
         lname = lib.verdict if lib.exc is None else "%s:%s" % (lib.verdict, type(lib.exc).__name__)
         fs = S.SimFS("/sim")
         fs.put("/sim/in/stream.vc2", data)
-        fs.dirs.update({"/sim/out", "/sim/out/sub"})
+        fs.dirs.update({"/sim/out", "/sim/out/sub", "/sim/out/dir.v1"})
         argv = ["/sim/in/stream.vc2", "--output", "/sim/out/" + case["pattern"]]
         if not case["status"]:
             argv.append("--no-status")
@@ -165,7 +176,7 @@ class C25(ByteChanSpec):
         expect = []
         for i in range(len(lib.pics)):
             name = base % (i,)
-            stem = name.rsplit(".", 1)[0] if "." in name.rsplit("/", 1)[-1] else name
+            stem = h_stem(name)
             expect += [stem + ".json", stem + ".raw"]
         if sorted(expect) != outfiles:
             return viol("C25/file-set", "files written %r, expected %r" % (outfiles, sorted(expect)))
